@@ -191,6 +191,7 @@ def run(chk):
         "nesting deeper than 64 brackets is outside the property and is not generated",
     ]
     chk.floor = 20000
+    chk.rule += '; plus characters of every Unicode class in every lexical position, long identifiers whose multi-byte characters straddle every byte offset up to 70, and the empty string literal in the token vocabulary'
     fails = []   # (site, msg, witness, origin)
 
     # ---- (1)(2) enumerations inside the probe
